@@ -46,6 +46,7 @@ from __future__ import annotations
 import inspect
 import itertools
 import keyword
+import sys
 
 from mc import par
 
@@ -606,32 +607,43 @@ def _part_a_worker(w, W, payload):
 
 # ----------------------------------------------------------------------------- part B (template_tag + Template)
 _B_LIB = None
-_B_FUNCS: dict = {}
+_B_TAGS: dict = {}  # signature -> (tag name, probe function)
 
 
-def _part_b_setup(sigs):
-    """Registers one @template_tag per signature in a Library that the default engine treats as builtin."""
+def _part_b_setup():
+    """A Library that the default engine treats as builtin; tags are added to it lazily (one per signature)."""
     global _B_LIB
     from django.template import Library
     from django.template.engine import Engine
 
-    from django_components import template_tag
-
-    _B_LIB = Library()
-    for idx, sig in enumerate(sigs):
-        fn = make_probe(sig)
-        fn.__name__ = f"c11b{idx}"
-        template_tag(_B_LIB, tag=f"c11b{idx}")(fn)
-        _B_FUNCS[idx] = fn
-    Engine.get_default().template_builtins.append(_B_LIB)
+    if _B_LIB is None:
+        _B_LIB = Library()
+        Engine.get_default().template_builtins.append(_B_LIB)
 
 
 def _part_b_teardown():
+    global _B_LIB
     from django.template.engine import Engine
 
     b = Engine.get_default().template_builtins
     if _B_LIB in b:
         b.remove(_B_LIB)
+    _B_LIB = None
+    _B_TAGS.clear()
+
+
+def template_tag_for(sig):
+    got = _B_TAGS.get(sig)
+    if got is None:
+        from django_components import template_tag
+
+        _part_b_setup()
+        name = f"c11b{len(_B_TAGS)}"
+        fn = make_probe(sig)
+        fn.__name__ = name
+        template_tag(_B_LIB, tag=name)(fn)
+        got = _B_TAGS[sig] = (name, fn)
+    return got
 
 
 def observe_template(tagname, call):
@@ -655,17 +667,16 @@ def _part_b_worker(w, W, payload):
     max_n, max_len, voff = payload["max_n"], payload["max_len"], payload["voff"]
     sigs = enum_signatures(max_n)
     agg = par.Agg()
-    reported = set()
+    state = _new_state()
     for i, toks, m in call_stream(max_n, max_len):
         if i % W != w:
             continue
         call = Call(toks, voff)
-        for idx, sig in enumerate(sigs):
+        for sig in sigs:
             if len(sig) < m:
                 continue
-            fn = _B_FUNCS[idx]
-            exp = expected(call, fn)
-            kind, log = observe_template(f"c11b{idx}", call)
+            exp, res, _ = check_pair(sig, call, None, seam="template")
+            _, kind, log, problem = res[0]
             agg.states += 1
             agg.transitions += 1
             agg.validated += 1
@@ -673,15 +684,8 @@ def _part_b_worker(w, W, payload):
                 agg.nontrivial += 1
             agg.expected["python_accepts" if exp[0] == "ok" else "python_rejects"] += 1
             agg.observe(outcome_key(kind, log))
-            problem = judge(exp, call, kind, log)
             if problem:
-                ident = f"B|{problem[0]}|template|{sig_text(sig)}|{{% t {call.text} %}}"
-                if len(reported) < 40 and ident not in reported:
-                    reported.add(ident)
-                    agg.fail(ident, f"@template_tag {sig_text(sig)} with {{% t {call.text} %}} vs Python `{call.pysrc}`: {problem[1]}",
-                             {"part": "B", "sig": [list(p) for p in sig], "call": [list(t) for t in toks], "voff": voff})
-                else:
-                    agg.failures_dropped += 1
+                report_failure(agg, state, "B", sig, call, "template", problem[0], problem[1], voff, "t", True, None, seam="template")
     return agg
 
 
@@ -702,6 +706,8 @@ def builtin_signatures():
         todo.extend(c.__subclasses__())
         if not c.__module__.startswith("django_components.") or not isinstance(getattr(c, "tag", None), str):
             continue
+        if getattr(sys.modules.get(c.__module__), c.__name__, None) is not c:
+            continue  # created at run time (e.g. by @template_tag), not a built-in
         kindmap = {
             inspect.Parameter.POSITIONAL_ONLY: "O", inspect.Parameter.POSITIONAL_OR_KEYWORD: "K",
             inspect.Parameter.VAR_POSITIONAL: "A", inspect.Parameter.KEYWORD_ONLY: "W", inspect.Parameter.VAR_KEYWORD: "X",
@@ -801,7 +807,8 @@ def run(ctx):
 
     # ---- part B
     sigs_b = enum_signatures(b_n)
-    _part_b_setup(sigs_b)
+    for sg in sigs_b:
+        template_tag_for(sg)  # registered before the fork
     try:
         aggb = par.run_sharded(_part_b_worker, {"max_n": b_n, "max_len": b_len, "voff": voff})
     finally:
@@ -849,28 +856,21 @@ def replay(ctx, case):
     part = case.get("part")
     sig = tuple(tuple(p) for p in case["sig"])
     call = Call(case["call"], case.get("voff", 0))
-    print(sig_text(sig), "   {% t " + call.text + " %}", "   python:", call.pysrc)
-    if part in ("A", "C"):
-        exp, res, pp = check_pair(sig, call, Context(), case.get("tag", "c11"), case.get("judge_dups", True))
-        print("python:", exp)
-        ok = True
-        for path, kind, log, problem in res:
-            print(f"{path}: {kind} {log} -> {problem}")
-            if problem and (case.get("path") in ("both", None) or path in case["path"]):
-                ok = False
-        if pp:
-            print("paths:", pp)
-            if case.get("path") == "both":
-                ok = False
-        return ok
-    if part == "B":
-        _part_b_setup([sig])
-        try:
-            exp = expected(call, _B_FUNCS[0])
-            kind, log = observe_template("c11b0", call)
-        finally:
-            _part_b_teardown()
-        problem = judge(exp, call, kind, log)
-        print("python:", exp, "template:", kind, log, "->", problem)
-        return problem is None
-    raise ValueError(part)
+    tag = case.get("tag", "c11")
+    print(sig_text(sig), "   {% " + tag + " " + call.text + " %}", "   python:", call.pysrc)
+    try:
+        exp, res, pp = check_pair(sig, call, Context(), tag, case.get("judge_dups", True), case.get("seam", "node"))
+    finally:
+        _part_b_teardown()
+    print("python:", exp)
+    ok = True
+    want = case.get("path")
+    for path, kind, log, problem in res:
+        print(f"{path}: {kind} {log} -> {problem}")
+        if problem and (want in ("both", None) or path in want):
+            ok = False
+    if pp:
+        print("paths:", pp)
+        if want == "both":
+            ok = False
+    return ok
